@@ -103,6 +103,20 @@ def gen(rng, scenario, tier):
                 else:
                     e[0] = [float(round(v)) for v in e[0]]
                     e[1] = rng.choice(["list_int", "nd2_int"] + (["scalar_int"] if k == "x" else []))
+    # float32-typed batches: values on a 1/8 grid (exact in float32) handed over as float32 arrays; the first input more often.
+    # (Batch detectors only: they pool what they are given with float64 data, so the values decide, not the dtype. Streaming
+    # detectors legitimately compute in the dtype they are given - float32 arithmetic gives other digits.)
+    if k == "batch":
+        for j, e in enumerate(ev):
+            if e[1].endswith("_int"):
+                continue
+            if rng.random() < (0.2 if j == 0 else 0.06):
+                if k == "batch":
+                    e[0] = [[round(v * 8) / 8 for v in row] for row in e[0]]
+                    e[1] = "nd_f32"
+                else:
+                    e[0] = [round(v * 8) / 8 for v in e[0]]
+                    e[1] = "nd2_f32"
     case = {"det": name, "cfg": cfg, "events": ev}
     if name in ("PCACD", "LinearFourRates"):
         L = len(ev)
@@ -118,6 +132,8 @@ def make_x(k, values, tag):
         arr = np.array(values, dtype=float)
         if tag == "nd_int":
             return arr.astype("int64")
+        if tag == "nd_f32":
+            return arr.astype("float32")
         if tag == "lol_int":
             return [[int(v) for v in r] for r in values]
         if tag == "lol":
@@ -141,6 +157,8 @@ def make_x(k, values, tag):
         return [int(v) for v in row]
     if tag == "nd2_int":
         return np.array([row]).astype("int64")
+    if tag == "nd2_f32":
+        return np.array([row], dtype="float32")
     if tag == "scalar":
         return row[0]
     if tag == "list":
